@@ -165,7 +165,16 @@ pub fn loadone(o: &Opts) -> i32 {
         let syms: Vec<String> = ctx.registry.substance_symbols.keys().take(12).cloned().collect();
         for sy in syms { let q = format!("{}2", sy); let _ = rink_core::one_line(&mut ctx, &q); probes.push(q); }
         let subs: Vec<String> = ctx.registry.substances.keys().take(12).cloned().collect();
-        for sb in subs { let _ = rink_core::one_line(&mut ctx, &sb); let q = format!("2 {}", sb); let _ = rink_core::one_line(&mut ctx, &q); probes.push(q); }
+        for sb in subs {
+            let _ = rink_core::one_line(&mut ctx, &sb); let q = format!("2 {}", sb); let _ = rink_core::one_line(&mut ctx, &q); probes.push(q);
+            // every property, by its own name and by its input / output names, of the bare and of a scaled substance
+            let props: Vec<(String, String, String)> = ctx.registry.substances.get(&sb).map(|s| s.properties.properties.iter().take(6).map(|(k, p)| (k.clone(), p.input_name.clone(), p.output_name.clone())).collect()).unwrap_or_default();
+            for (k, i, o) in props {
+                for q in [format!("{} of {}", k, sb), format!("{} of {}", i, sb), format!("{} of {}", o, sb), format!("{} of 3 {}", k, sb), format!("{} -> {}", sb, k), format!("{} + {}", sb, sb)] {
+                    let _ = rink_core::one_line(&mut ctx, &q); probes.push(q);
+                }
+            }
+        }
         (ctx, errors, usable, d1 == d2, probes.len())
     });
     // the definitions parser prints its syntax diagnostics on stdout, so the dump goes to a file
@@ -375,6 +384,19 @@ pub fn run(o: &Opts) -> i32 {
             for i in 0..200 { gen.push(unit(&format!("fan{}", i), &format!("chain{} chain{} / chain{}", 1 + rng.below(299), 1 + rng.below(299), 1 + rng.below(299)))); }
             gen.push(DefEntry { name: "kilo".into(), def: Rc::new(Def::Prefix { expr: ExprString(rink_core::ast::Expr::new_const(rink_core::types::Numeric::from(1000))), is_long: true }), doc: None, category: None });
             gen.push(unit("usesprefix", "kilochain7 + 1 chain8"));
+            // names that can be read in more than one way: overlapping prefixes (`d` + `am` / `da` + `m`),
+            // prefix + plural, unit vs prefix vs quantity of one name, categories and docs on every kind
+            let mkp = |n: &str, v: &str, long: bool| { let mut it = rink_core::loader::gnu_units::TokenIterator::new(v).peekable(); DefEntry { name: n.into(), def: Rc::new(Def::Prefix { expr: ExprString(rink_core::loader::gnu_units::parse_expr(&mut it)), is_long: long }), doc: Some(format!("doc of prefix {}", n)), category: None } };
+            gen.push(DefEntry { name: "lengths".into(), def: Rc::new(Def::Category { display_name: "Lengths".into() }), doc: None, category: None });
+            gen.push(DefEntry { name: "m".into(), def: Rc::new(Def::BaseUnit { long_name: Some("meter".into()) }), doc: Some("the metre".into()), category: Some("lengths".into()) });
+            gen.push(DefEntry { name: "am".into(), def: Rc::new(Def::BaseUnit { long_name: None }), doc: None, category: Some("lengths".into()) });
+            gen.push(mkp("d", "1|10", false)); gen.push(mkp("da", "10", false)); gen.push(mkp("deci", "d", true)); gen.push(mkp("a", "1|1000", false)); gen.push(mkp("ab", "7", false));
+            gen.push(unit("bc", "3 m")); gen.push(unit("c", "5 am")); gen.push(unit("mas", "11 m")); gen.push(unit("ma", "13 am"));
+            for (n, e) in [("amb1", "1 dam"), ("amb2", "2 abc"), ("amb3", "3 mas"), ("amb4", "4 dmas"), ("amb5", "5 dams"), ("amb6", "decimeter + 1 dm"), ("amb7", "meter / am"), ("amb8", "damb1"), ("amb9", "2 amb8s")] {
+                let mut d = unit(n, e); d.category = Some("lengths".into()); d.doc = Some(format!("doc of {}", n)); gen.push(d);
+            }
+            { let mut it = rink_core::loader::gnu_units::TokenIterator::new("m").peekable(); gen.push(DefEntry { name: "length".into(), def: Rc::new(Def::Quantity { expr: ExprString(rink_core::loader::gnu_units::parse_expr(&mut it)) }), doc: None, category: None }); }
+            { let mut it = rink_core::loader::gnu_units::TokenIterator::new("length^2").peekable(); gen.push(DefEntry { name: "area".into(), def: Rc::new(Def::Quantity { expr: ExprString(rink_core::loader::gnu_units::parse_expr(&mut it)) }), doc: None, category: None }); }
             let g0: Vec<&DefEntry> = gen.iter().collect();
             add("gen-identity".into(), "generated chain/fan database".into(), vec![g0.clone()], &mut names);
             let mut g1 = g0.clone(); g1.reverse();
